@@ -354,14 +354,15 @@ class Fn:
                         p = P(s["place"])
                         if not p[1]:
                             d[p[0]].append(("assign", b, i, s["rv"]))
-                        else:
+                        elif p[1][0] != ("deref",):
+                            # a store through a pointer does not (re)define the pointer local itself
                             d[p[0]].append(("partial", b, i, s["rv"], p))
                 t = self.blocks[b]["term"]
                 if t["k"] == "call":
                     p = P(t["dest"])
                     if not p[1]:
                         d[p[0]].append(("call", b, t))
-                    else:
+                    elif p[1][0] != ("deref",):
                         d[p[0]].append(("partialcall", b, t, p))
             self._defs = d
         return self._defs
